@@ -242,7 +242,7 @@ def cu_gen_call(rng) -> dict:
     mode = rng.choice(['value', 'value', 'children'])
     n = rng.choice([0, 1, 2, 2, 3, 3, 4, 5, 6])
     args = [cu_gen_arg(rng, mode, i) for i in range(n)]
-    if rng.random() < 0.75:   # most calls are accepted
+    if rng.random() < 0.65:   # most calls are accepted
         args = [a if a['k'] not in ('attached', 'dup') else {'k': 'num', 'text': cu_gen_expr(rng)} for a in args]
     return {'kind': 'custom-call', 'mode': mode, 'args': args}
 
